@@ -17,6 +17,9 @@ if "--tier" in args:
 if "--patch" in args:
     i = args.index("--patch"); patch = os.path.abspath(args[i + 1]); del args[i:i + 2]
 muts = json.load(open(os.path.join(HERE, "tools", "mutants.json"))).get(pid, {})
+_extra = os.path.join(HERE, "tools", "mutants.d", pid + ".json")
+if os.path.exists(_extra):
+    muts.update(json.load(open(_extra)))
 names = args or list(muts)
 if patch:
     names = ["<patch>"]
